@@ -81,6 +81,17 @@ type SeataV1PackageHeader struct {
 }
 
 func (p *RpcPackageHandler) Read(ss getty.Session, data []byte) (interface{}, int, error) {
+	// the fixed part of the header has not arrived yet: wait for more data,
+	// unless the bytes that are there already contradict the magic code
+	if len(data) < Seatav1HeaderLength {
+		for i := 0; i < len(data) && i < len(magics); i++ {
+			if data[i] != magics[i] {
+				return nil, 0, fmt.Errorf("codec decode not found magic offset")
+			}
+		}
+		return nil, 0, nil
+	}
+
 	in := bytes.NewByteBuffer(data)
 
 	header := SeataV1PackageHeader{}
@@ -99,13 +110,17 @@ func (p *RpcPackageHandler) Read(ss getty.Session, data []byte) (interface{}, in
 	header.CodecType = bytes.ReadByte(in)
 	header.CompressType = bytes.ReadByte(in)
 	header.RequestID = bytes.ReadUInt32(in)
-	headMapLength := header.HeadLength - Seatav1HeaderLength
-	header.Meta = decodeHeapMap(in, headMapLength)
+	if header.HeadLength < Seatav1HeaderLength || header.TotalLength < uint32(header.HeadLength) {
+		return nil, 0, ErrInvalidPackage
+	}
 	header.BodyLength = header.TotalLength - uint32(header.HeadLength)
 
 	if uint32(len(data)) < header.TotalLength {
 		return nil, int(header.TotalLength), nil
 	}
+	// the head map is decoded only once it has arrived completely, and only from its own bytes
+	header.Meta = decodeHeapMap(bytes.NewByteBuffer(data[Seatav1HeaderLength:header.HeadLength]),
+		header.HeadLength-Seatav1HeaderLength)
 
 	// r := byteio.BigEndianReader{Reader: bytes.NewReader(data)}
 	rpcMessage := message.RpcMessage{
@@ -122,7 +137,7 @@ func (p *RpcPackageHandler) Read(ss getty.Session, data []byte) (interface{}, in
 		rpcMessage.Body = message.HeartBeatMessagePong
 	} else {
 		if header.BodyLength > 0 {
-			msg := codec.GetCodecManager().Decode(codec.CodecType(header.CodecType), data[header.HeadLength:])
+			msg := codec.GetCodecManager().Decode(codec.CodecType(header.CodecType), data[header.HeadLength:header.TotalLength])
 			rpcMessage.Body = msg
 		}
 	}
@@ -198,8 +213,8 @@ func decodeHeapMap(in *bytes.ByteBuffer, length uint16) map[string]string {
 		return res
 	}
 
-	readedLength := uint16(0)
-	for readedLength < length {
+	readedLength := 0
+	for readedLength < int(length) {
 		var key, value string
 		keyLength := bytes.ReadUInt16(in)
 		if keyLength == 0 {
@@ -212,7 +227,7 @@ func decodeHeapMap(in *bytes.ByteBuffer, length uint16) map[string]string {
 
 		valueLength := bytes.ReadUInt16(in)
 		if valueLength == 0 {
-			key = ""
+			value = ""
 		} else {
 			valueBytes := make([]byte, valueLength)
 			in.Read(valueBytes)
@@ -220,8 +235,7 @@ func decodeHeapMap(in *bytes.ByteBuffer, length uint16) map[string]string {
 		}
 
 		res[key] = value
-		readedLength += 4 + keyLength + valueLength
-		fmt.Sprintln("done")
+		readedLength += 4 + int(keyLength) + int(valueLength)
 	}
 	return res
 }
